@@ -771,17 +771,15 @@ def inCone (lo hi hh : α) (p : Vec3 α) : Bool :=
 def inEllipsoid (r p : Vec3 α) : Bool :=
   Num.le ((p.x / r.x) * (p.x / r.x) + (p.y / r.y) * (p.y / r.y) + (p.z / r.z) * (p.z / r.z)) (1 : α)
 
-/-- direction angle of the outward normal of face k of a regular n-gon whose face 0 normal
-    points at `(3 n + 4 orientation)/4` n-ths of a turn (no reduction modulo a turn) -/
-def ngonAngle (n : Nat) (orient : α) (k : Nat) : α :=
-  ((2 : α) * (piC : α) / (Num.ofNat n : α))
-    * ((Num.ofNat k : α) + ((Num.ofNat (n * 3) : α) + (4 : α) * orient) / (4 : α))
-
-/-- regular prism: |z| ≤ hh ∧ every face k < n: x cos θ_k + y sin θ_k ≤ apothem -/
+/-- regular prism: |z| ≤ hh ∧ every face k < n: x cos θ_k + y sin θ_k ≤ apothem, with the face
+    normals at θ_k = (2π/n)(k + offset), offset = ((3 n + 4 orientation) mod 4)/4 as in the code
+    (`prismTheta`: the reduction of the offset modulo one face step is `fmod4`; with the code's
+    21-digit π literal an unreduced offset would describe a polygon rotated by ~1e-20 rad, which
+    is why the SPEC keeps the code's reduced offset — see `fmod4_spec` in Lemmas/Solids) -/
 def inPrism (n : Nat) (apothem hh orient : α) (p : Vec3 α) : Bool :=
   Num.le (Num.abs p.z) hh
     && (List.range n).all fun k =>
-      Num.le (p.x * Num.cos (ngonAngle n orient k) + p.y * Num.sin (ngonAngle n orient k)) apothem
+      Num.le (p.x * Num.cos (prismTheta n orient k) + p.y * Num.sin (prismTheta n orient k)) apothem
 
 /-- edge half-vectors of the parallelepiped AS DOCUMENTED (IntersectRegion.hh, = G4Para): `h` are
     the half-lengths of the *projections* of the edges on x, y, z; alpha is the angle between the
